@@ -70,7 +70,7 @@ def gen_case(seed: int, prop: str, tier: str) -> dict:
         else:
             ops.append(["flip"])
     cfg = {"seq0": rng.choice([1, 3, 7, 1000, 65000]), "max_tables": rng.choice([1, 2, 4, 12]), "gaps": rng.random() < 0.3,
-           "scatter_obj": rng.random() < 0.4, "free_obj": rng.random() < 0.5, "second_objtable": rng.random() < 0.3,
+           "scatter_obj": rng.random() < 0.4, "free_obj": rng.random() < 0.5, "second_objtable": rng.random() < 0.3, "reuse": rng.random() < 0.5,
            "stale_version": rng.choice([0x400, 0x400, 0x300, 0]), "stale_sig": rng.choice([W.SIG_HEADER, W.SIG_HEADER, 0, 0xDEADBEEF]),
            "store_seed": rng.getrandbits(40)}
     return {"engine": "storesim", "prop": prop, "seed": seed, "cfg": cfg, "ops": ops, "cuts": rng.choice(["all", "all", "final", "sample"]),
@@ -199,6 +199,11 @@ def run_case(case: dict) -> RunResult:
         res.probes["store.two_versions_of_a_table_registered"] = 1
     if st.obj2 is not None:
         res.probes["store.additional_object_table"] = 1
+    if st.reused:
+        res.probes["store.released_space_reused"] = 1
+        live = {e[1] for e in allobj if e[3] and e[0] in (W.OBJ_KEYTABLE, W.OBJ_FILE, W.OBJ_OBJTABLE)}
+        if any(e[1] in live for e in allobj if e[1] and (not e[3] or e[0] == W.OBJ_FREE)):
+            res.probes["store.stale_entry_names_a_live_offset"] = 1
     if case["cfg"]["stale_version"] != 0x400 or case["cfg"]["stale_sig"] != W.SIG_HEADER:
         res.probes["store.stale_header_slot_invalid"] = 1
     for t in _types(st.tree):
